@@ -1,5 +1,5 @@
 (* C01 — isolation (plan level): systems placed side by side never conflict. *)
-From Shred Require Import Base SrcParams Plan PlanObs PlanLemmas PlanInv PlanLoc PlanBuild PlanProps Exec ExecProps ExecPlan BatchProps OracleProps.
+From Shred Require Import Base SrcParams Plan PlanObs PlanLemmas PlanInv PlanLoc PlanBuild PlanProps Exec ExecProps ExecPlan BatchProps OracleProps ExecObs TraceOracles ExecOracles.
 
 (* For every registration program: two systems in different groups of one stage have no
    W/W, W/R or R/W overlap of their declared access. *)
@@ -58,6 +58,21 @@ Theorem C01_oracle_isolated_holds_on_model_layouts :
   forall rs b, plan rs = Ok b -> regs_times_ok rs -> NoDup (sys_tags rs) -> o_isolated rs (layout_tags b) = true.
 Proof. exact o_isolated_on_model. Qed.
 Print Assumptions C01_oracle_isolated_holds_on_model_layouts.
+
+(* ---- the run-time oracle `no_overlap` that suite S2 evaluates on every RECORDED trace ---- *)
+(* what `true` means for the recorded run itself, whatever produced it: a system that is fetched
+   while another one's window is open does not conflict with it *)
+Theorem C01_oracle_no_overlap_meaning :
+  forall conflict tr, o_no_overlap conflict tr = true ->
+  forall u1 a u2 c u3, tr = u1 ++ EF a :: u2 ++ EF c :: u3 -> ~ In (ER a) u2 -> conflict a c = false.
+Proof. exact o_no_overlap_meaning. Qed.
+Print Assumptions C01_oracle_no_overlap_meaning.
+(* and every trace of the executor model passes it (conflict relation of the placed systems) *)
+Theorem C01_oracle_no_overlap_holds_on_every_model_trace :
+  forall rs b t, plan rs = Ok b -> Forall reg_time_ok1 rs -> NoDup (sys_tags rs ++ tl_tags rs) ->
+  traces_disp (layout_tags b) (b_tl b) t -> o_no_overlap (conflict_of b) t = true.
+Proof. exact no_overlap_on_model_traces. Qed.
+Print Assumptions C01_oracle_no_overlap_holds_on_every_model_trace.
 
 Example C01_example :
   let rs := [RSys 1 [] [] [8] [] 3%Z; RSys 2 [] [] [] [8] 3%Z; RSys 3 [] [] [8] [9] 3%Z] in
